@@ -67,4 +67,5 @@ def main():
     print("selftest: %d cases, %d failed" % (len(jobs), bad))
     sys.exit(1 if bad else 0)
 
-main()
+if __name__ == "__main__":
+    main()
